@@ -34,6 +34,8 @@ T = {
  "C16-2": ("C16", "AsyncWriter::write_with arms State::WriteFrom(0) before encoding and the max_len check", "a rejected write (InvalidLen or encode error) followed by an explicit sync()", ["C16"], "write-sync-schedules: sync on an idle writer called poll_write after a rejected value"),
  "C17-1": ("C17", "deserialize_any: Type::U64 dispatches to deserialize_i64", "u64 above i64::MAX inside an untagged / internally tagged enum or a flattened struct", ["C17"], "wrapper-x-leaf: enum-internal<u64> u64::MAX fails to deserialise"),
  "C17-2": ("C17", "MapAccess::next_key_seed no longer consumes the break byte of an indefinite map", "indefinite-length map (flatten, or re-framed input) followed by a position check or a sibling", ["C17"], "wrapper-x-leaf: struct re-framed as bf..ff consumed 4 of 5 bytes"),
+ "C18-1": ("C18", "serde bridge deserialize_tuple: indefinite arrays no longer rejected, their break byte stays unread", "an indefinite tuple / fixed array nested directly inside an indefinite sequence or map", ["C18", "C17"], "shared-types after re-framings with up to three indefinite containers (and everything indefinite) and tuples nested in sequences were added; missed before: only single-container re-framings were generated. C17 catches it too since the lenient indefinite inputs were added."),
+ "C18-2": ("C18", "native Encode for 12-tuples writes component 10 twice (macro index table K(10) L(10))", "a tuple of exactly arity 12 whose last two components differ", ["C01", "C03", "C18"], "C01 / C03 typed-values (tuple12) caught it at once; C18 only after tuples of arity 5..12 were added to the shared types"),
  "C19-1": ("C19", "display: empty indefinite text string leaves its break unconsumed", "a well-formed item containing 7f ff", ["C19"], "exact-rendering: displayed 1(1(\"\"_))] "),
  "C19-2": ("C19", "display: premature end of input no longer stops the stack machine", "definite array/map head declaring far more elements than the truncated input holds", ["C19", "C02"], "totality-and-size: output exceeds 16*len+512"),
  "C20-1": ("C20", "no-alloc skip, MAP arm: nrounds < 2 became <= 2", "minicbor built without alloc; indefinite map inside a definite container with exactly one more item pending", ["C20", "C06"], "C20 transcripts (serde IgnoredAny / skip positions differ from std+half) and C06 no-alloc probe (82 bf ff 00 skipped to 3 of 4)"),
